@@ -59,10 +59,16 @@ const L2Rule = " || L2: scenario k of seed s (one child process each) is a pure 
 	"sibling outputs, duplicates with equal and different start heights, with start heights 0, below, at and above creation, at and after the " +
 	"spend, at the tip, above the tip. Families: l2-static, l2-growth (blocks revealed while the scans run), l2-stall-join (a dropped getdata " +
 	"stalls the running batch; the chain grows and is adopted, then a second wave joins the running batch), l2-withheld (every peer refuses one " +
-	"block: the scan cannot complete), l2-stop (Stop while a batch is stalled), l2-mixed (growth + one peer dropping + duplicates). " +
+	"block: the scan cannot complete; afterwards the carrier request is retried), l2-stop (Stop while a batch is stalled), l2-mixed (growth + one peer dropping + duplicates), " +
+	"l2-refetch (every third scenario index; index 0 of the family is FIXED: a block B and requests whose scan must download B (B spends / creates the outpoint or is the start block); " +
+	"while EVERY peer refuses a valid B (silence, another block, notfound, a corrupted B, connection cut inside the block message) the requests and direct GetBlock(B) calls " +
+	"(scan alone / GetBlock first / scan first / together / GetBlock only) fail after the client's timeouts with QueryNumRetries lowered to 1-2; then the peers serve B honestly, the default is restored and " +
+	"the SAME request is retried, alone or with duplicates / another outpoint needing B / a direct GetBlock / unrelated requests / growth; a call still out after a watchdog (75+30 s doomed, 100 s retry) is a " +
+	"violation only if peers are connected and owe nothing, every getdata for B since the peers are honest was answered with the block (or none was sent), and two goroutine dumps 2 s apart show the same callers " +
+	"parked in GetUtxoRequest.Result and the batch manager in an identical stack with no peer request in between; else inconclusive). " +
 	"Oracle per call: it returns; its SpendReport equals RefUtxo over the final chain for SOME prefix E between the client's best height read " +
 	"before the call and after its return; an error only if the harness withheld a block from every peer " +
-	"(the block stays refused by every peer until the query's own 30 s limit fails the scan) or began stopping the client. L2 fingerprint of a call = (outpoint kind, start relation, wave/phase, duplicate kind, answer kind), marked; " +
+	"(the block stays refused by every peer until the query's own 30 s limit fails the scan; l2-refetch: until every call of the doomed phase returned) or began stopping the client. L2 fingerprint of a call = (outpoint kind, start relation, wave/phase, duplicate kind, answer kind), marked; " +
 	"a scenario counts under (family, faults that fired, growth, answer kinds). Counters prefixed l2_."
 
 // L2Describe adds the L2 part's assumptions.
@@ -77,7 +83,8 @@ func L2Describe(r *evid.Run) {
 // child process each, 16-wide) and folds their results and a few written-out
 // scenarios into r. The caller sets the rule text (L2Rule) and calls r.Finish.
 func L2Run(r *evid.Run) {
-	n := r.Pick(L2QuickScenarios, L2ThoroughScenarios)
+	// Every third scenario index belongs to the l2-refetch family (l2Split).
+	n := r.Pick(L2QuickScenarios+L2RefetchQuick, L2ThoroughScenarios+L2RefetchThorough)
 	var mu sync.Mutex
 	var samples []any
 	families := map[string]int{}
@@ -627,6 +634,8 @@ func l2MakePlan(seed int64, k int) *l2Plan {
 			for pl.nReq < n2 {
 				pl.addRandomReq(2, 0, false) // after the failed batch
 			}
+			// The request that failed is retried once the block is served.
+			pl.newReq(2, carrier, n.Block.Transactions[0].TxOut[0].PkScript, int64(pl.stallHeight), "carrier", "retry-same")
 		}
 	}
 	return pl
@@ -914,9 +923,9 @@ func maxServeLatency(evs []netsim.Event) time.Duration {
 			if !has[e.Peer] {
 				pending[e.Peer], has[e.Peer] = e.T, true
 			}
-		case e.Dir == "ev" && e.Cmd == "drop":
+		case e.Dir == "ev" && (e.Cmd == "drop" || e.Cmd == "fault" || e.Cmd == "closed" || e.Cmd == "disconnect"):
 			has[e.Peer] = false
-		case e.Dir == "tx" && (e.Cmd == "block" || e.Cmd == "cfilter"):
+		case e.Dir == "tx" && (e.Cmd == "block" || e.Cmd == "cfilter" || e.Cmd == "notfound"):
 			if has[e.Peer] {
 				if d := e.T - pending[e.Peer]; d > max {
 					max = d
@@ -987,10 +996,15 @@ func L2Scenario(seed int64, k int, res *l2.Result) {
 			res.Inconcl("l2: harness panic")
 		}
 	}()
-	pl := l2MakePlan(seed, k)
+	refetch, idx := l2Split(k)
+	if refetch {
+		L2RefetchScenario(seed, idx, k, res)
+		return
+	}
+	pl := l2MakePlan(seed, idx)
 	w, c := pl.w, pl.c
 	defer w.Cleanup()
-	res.Name = fmt.Sprintf("c10-l2-%d", k)
+	res.Name = fmt.Sprintf("c10-l2-%d", idx)
 	res.Fingerprint = pl.Family + "|not-started"
 	x := &l2Run{pl: pl, w: w, res: res, honest: c.tip0,
 		drop: &l2Dropper{blk: map[chainhash.Hash]int{}, dropped: map[chainhash.Hash]int{}, signal: make(chan struct{}, 4)}}
@@ -1122,10 +1136,20 @@ func L2Scenario(seed int64, k int, res *l2.Result) {
 			}
 			ok = callsDone("withheld", 120*time.Second)
 			x.drop.clear()
+			honestSince := w.Log.Len()
 			if ok {
 				x.issue(pl.waves[2], "after-failed-batch")
 				growSome()
-				ok = callsDone("after-withheld", 90*time.Second)
+				if ok = x.waitCalls(100 * time.Second); !ok {
+					// Same judgement as the l2-refetch family (leftParked).
+					if v, text, parked := x.leftParked(c.path[pl.stallHeight].Hash, honestSince); v {
+						add("l2/left-waiting/after-withheld/"+pl.Family+"/parked="+parked, "after-withheld: "+text)
+					} else if v, text := x.leftWaiting(); v {
+						add("l2/left-waiting/after-withheld/"+pl.Family, "after-withheld: "+text)
+					} else if incon == "" {
+						incon = "call watchdog (after-withheld): not provably lost: " + text
+					}
+				}
 			}
 		case L2Stop:
 			x.issue(pl.waves[1], "joined-batch-before-stop")
